@@ -140,14 +140,24 @@ type MintRec struct {
 	Denom  string
 	Amount sdkmath.Int
 	Burn   bool
+	Callers string // call chain at the bank call (symbolic engine only; empty natively)
 }
 
+// LastWorld is the most recently created root world (meta-checks inspect it after a scenario ran).
+var LastWorld *World
+
 func NewWorld() *World {
+	w := newWorld()
+	LastWorld = w
+	return w
+}
+
+func newWorld() *World {
 	return &World{Stores: map[string]*Store{}, Bal: map[string]map[string]sdkmath.Int{}, Supply: map[string]sdkmath.Int{}, Height: 1, Unix: 1}
 }
 
 func (w *World) Clone() *World {
-	c := NewWorld()
+	c := newWorld()
 	for n, s := range w.Stores {
 		c.Stores[n] = s.clone()
 	}
@@ -393,7 +403,7 @@ func (Bank) MintCoins(ctx context.Context, m string, amt sdk.Coins) error {
 	for _, c := range amt {
 		w.Supply[c.Denom] = w.SupplyOf(c.Denom).Add(c.Amount)
 		w.SetBal(a, c.Denom, w.BalOf(a, c.Denom).Add(c.Amount))
-		w.MintLog = append(w.MintLog, MintRec{Module: m, Denom: c.Denom, Amount: c.Amount})
+		w.MintLog = append(w.MintLog, MintRec{Module: m, Denom: c.Denom, Amount: c.Amount, Callers: Callers()})
 	}
 	w.Sends++
 	return nil
@@ -412,7 +422,7 @@ func (Bank) BurnCoins(ctx context.Context, m string, amt sdk.Coins) error {
 	for _, c := range amt {
 		w.Supply[c.Denom] = w.SupplyOf(c.Denom).Sub(c.Amount)
 		w.SetBal(a, c.Denom, w.BalOf(a, c.Denom).Sub(c.Amount))
-		w.MintLog = append(w.MintLog, MintRec{Module: m, Denom: c.Denom, Amount: c.Amount, Burn: true})
+		w.MintLog = append(w.MintLog, MintRec{Module: m, Denom: c.Denom, Amount: c.Amount, Burn: true, Callers: Callers()})
 	}
 	w.Sends++
 	return nil
